@@ -90,9 +90,10 @@ func vfC13Tx(kinds int, acc []byte) types.Transaction {
 	}
 	if vfC13Sized >= 0 {
 		// variant for MemPool.get: concrete amount image and a payload whose length depends on the position in the
-		// account's list (small, big, small, ...), so that wire sizes differ; the nonce varint stays symbolic
+		// account's list (big, small, big, ...), so that wire sizes differ and a big transaction sits IN FRONT of a
+		// small one of the same account; the nonce varint stays symbolic
 		body.Amount = []byte{1}
-		if vfC13Sized%2 == 1 {
+		if vfC13Sized%2 == 0 {
 			body.Payload = make([]byte, 300)
 		}
 		vfC13Sized++
